@@ -156,3 +156,7 @@ func TLSModel(handshakeOK bool, negotiatedProtocol string) {}
 func TLSDialTarget(conn any) {}
 
 func FixedSchedule(on bool) {}
+
+func CAKey(cert any, key any) {}
+
+func AdvanceClock(seconds int64) {}
